@@ -302,6 +302,7 @@ def check(P, rep):
                 rt = norm(g.term_local(root, bi, len(b['st']), 0))
                 rep.check(bal_of(rt, g.P(1)), 'C12.R3', 'balance:result-term', 'balance() returns the stored balance of id or 0', entry_id(g), fmt(rt)[:200])
         rep.check(not state_effects(g), 'C12.R3', 'balance:pure', 'balance() changes nothing', entry_id(g))
+    storage_classes(P, rep, 'C12.R3', CN, {'Balance': 'persistent', 'Allowance': 'temporary', 'Minter': 'instance'})
     # R3 who-may-write over all entries
     for cn, en in P.all_entries():
         if cn != CN:
